@@ -4,6 +4,7 @@
 //! menu (+ WASM-heavy extras) from the base world. For each pair the baseline digest D0 (= `receipt_digest`
 //! of one sequential run, default config, brand-new real `VmModules`) is compared with the digest of the
 //! *same executable on the same database* under every variation of
+//!   (0) plain repetition (same config, new VmModules, new hash seeds),
 //!   (a) the diagnostic settings (24 = kernel trace × cost breakdown × execution trace {None,1,MAX} × debug info),
 //!   (b) the code-cache hit/miss pattern (all vectors with ≤ 2 forced misses + all-miss, through `DetEngine`),
 //!   (c) the OS process (a re-exec'd child repeats the exploration; digest logs compared line by line; the
@@ -54,6 +55,7 @@ impl Pool {
 #[derive(Default)]
 struct Collector {
     violations: Mutex<Vec<(String, String, Value)>>,
+    violation_counts: Mutex<BTreeMap<String, u64>>,
     classes: Mutex<BTreeMap<String, u64>>,
     infos: Mutex<BTreeMap<String, u64>>,
     /// key "history|op" -> (executable id, D0, receipt class)
@@ -83,7 +85,22 @@ impl Collector {
         *self.infos.lock().unwrap().entry(c.to_string()).or_insert(0) += n;
     }
     fn violation(&self, key: String, what: String, case: Value) {
-        self.violations.lock().unwrap().push((key, what, case));
+        let n = {
+            let mut seen = self.violation_counts.lock().unwrap();
+            let e = seen.entry(key.clone()).or_insert(0);
+            *e += 1;
+            *e
+        };
+        // keep the first few instances of every class in full, count the rest
+        if n <= 8 {
+            self.violations.lock().unwrap().push((key, what, case));
+        } else {
+            self.class("violation(further-instances-counted-only)", 1);
+        }
+    }
+    /// true for the first instances of a violation class: only those get the (expensive) stability re-runs
+    fn detail_budget(&self, key: &str) -> bool {
+        *self.violation_counts.lock().unwrap().get(key).unwrap_or(&0) < 3
     }
     fn ex(&self, n: u64) {
         self.executions.fetch_add(n, Ordering::Relaxed);
@@ -131,14 +148,19 @@ fn miss_plans(n: usize) -> Vec<Plan> {
     v
 }
 
-fn sweep_configs(col: &Collector, db: &InMemorySubstateDatabase, vm: &DefaultVmModules, exe: &Exe, d0: &str, kernel_trace: bool, hist: &[Op], op: Op, mut record: impl FnMut(&str, &str)) {
+/// Dimension (a): only the diagnostic settings vary — every run uses a brand-new real VmModules like D0.
+fn sweep_configs(col: &Collector, db: &InMemorySubstateDatabase, exe: &Exe, d0: &str, kernel_trace: bool, hist: &[Op], op: Op, mut record: impl FnMut(&str, &str)) {
     for (label, cfg) in cfg_variants(&exe.cfg, kernel_trace) {
-        let d = outcome_of(&run_once(db, vm, &cfg, &exe.exe));
+        let d = outcome_of(&run_once(db, &new_real_vm(), &cfg, &exe.exe));
         col.ex(1);
         col.cfg_runs.fetch_add(1, Ordering::Relaxed);
         record(&label, &d);
         if d != d0 {
-            let what = describe_mismatch(d0, &d, &|| outcome_of(&run_once(db, &new_real_vm(), &exe.cfg, &exe.exe)), &|| outcome_of(&run_once(db, vm, &cfg, &exe.exe)));
+            let what = if col.detail_budget(&format!("config:{label}")) {
+                describe_mismatch(d0, &d, &|| outcome_of(&run_once(db, &new_real_vm(), &exe.cfg, &exe.exe)), &|| outcome_of(&run_once(db, &new_real_vm(), &cfg, &exe.exe)))
+            } else {
+                format!("baseline {} vs variant {}", mc_core::truncate(d0, 24), mc_core::truncate(&d, 24))
+            };
             col.violation(
                 format!("config:{label}"),
                 format!("digest changes with diagnostic settings {label} for {} after {}: {what}", op.name(), hist_string(hist)),
@@ -160,7 +182,11 @@ fn sweep_cache(col: &Collector, db: &InMemorySubstateDatabase, det: &DetVm, exe:
         col.cache_runs.fetch_add(1, Ordering::Relaxed);
         if d != d0 {
             let p2 = plan.clone();
-            let what = describe_mismatch(d0, d, &|| outcome_of(&run_once(db, &new_real_vm(), &exe.cfg, &exe.exe)), &|| run(p2.clone()).0);
+            let what = if col.detail_budget(&format!("cache:{kind}")) {
+                describe_mismatch(d0, d, &|| outcome_of(&run_once(db, &new_real_vm(), &exe.cfg, &exe.exe)), &|| run(p2.clone()).0)
+            } else {
+                format!("baseline {} vs variant {}", mc_core::truncate(d0, 24), mc_core::truncate(d, 24))
+            };
             col.violation(
                 format!("cache:{kind}"),
                 format!("digest changes with the code-cache pattern {} for {} after {}: {what}", plan.label(), op.name(), hist_string(hist)),
@@ -283,16 +309,32 @@ impl<'a> Machine for DetMachine<'a> {
 
         {
             let db = st.sim.substate_db();
-            match self.role {
-                Role::Parent => self.pool.with(|v| {
-                    sweep_configs(col, db, &v.real, &exe, &d0, false, &hist, op, |_, _| {});
-                    sweep_cache(col, db, &v.det, &exe, &d0, &hist, op);
-                }),
-                Role::Child => self.pool.with(|v| {
-                    sweep_configs(col, db, &v.real, &exe, &d0, true, &hist, op, |label, d| {
+            // plain repetition first (same config, again a brand-new VmModules; only the hash seeds differ): when the
+            // baseline itself is not reproducible every other comparison of this transition would be noise
+            let d0b = outcome_of(&run_once(db, &new_real_vm(), &exe.cfg, &exe.exe));
+            col.ex(1);
+            if d0b != d0 {
+                let what = if col.detail_budget("repeat") {
+                    describe_mismatch(&d0, &d0b, &|| outcome_of(&run_once(db, &new_real_vm(), &exe.cfg, &exe.exe)), &|| outcome_of(&run_once(db, &new_real_vm(), &exe.cfg, &exe.exe)))
+                } else {
+                    format!("first run {} vs second run {}", mc_core::truncate(&d0, 24), mc_core::truncate(&d0b, 24))
+                };
+                col.violation(
+                    "repeat".into(),
+                    format!("two sequential runs of {} after {} with the same config on brand-new VmModules in one process differ: {what}", op.name(), hist_string(&hist)),
+                    json!({"dimension": "repeat", "history": names(&hist), "op": op.name()}),
+                );
+            } else {
+                col.class("repeat:equal", 1);
+                match self.role {
+                    Role::Parent => {
+                        sweep_configs(col, db, &exe, &d0, false, &hist, op, |_, _| {});
+                        self.pool.with(|v| sweep_cache(col, db, &v.det, &exe, &d0, &hist, op));
+                    }
+                    Role::Child => sweep_configs(col, db, &exe, &d0, true, &hist, op, |label, d| {
                         col.klog.lock().unwrap().insert(format!("{key}|{label}"), d.to_string());
-                    });
-                }),
+                    }),
+                }
             }
         }
 
@@ -485,11 +527,11 @@ fn prepare_subject(root: &Root, col: &Collector, real: &DefaultVmModules, sj: &S
     (st, exes, d0s)
 }
 
-fn fresh_sched_vm(db: &InMemorySubstateDatabase, exes: &[Exe], warm: bool) -> DetVm {
-    let vm = new_det_vm();
+fn fresh_sched_vm(db: &InMemorySubstateDatabase, exes: &[Exe], warm: bool) -> std::sync::Arc<DetVm> {
+    let vm = std::sync::Arc::new(new_det_vm());
     if warm {
         for e in exes {
-            let _ = with_ctl(Plan::Shared, None, || run_once(db, &vm, &e.cfg, &e.exe));
+            let _ = with_ctl(Plan::Shared, None, || run_once(db, &*vm, &e.cfg, &e.exe));
         }
     }
     vm
@@ -507,9 +549,9 @@ fn explore_subject(root: &Root, col: &Collector, pool: &Pool, sj: &SchedSubject,
     col.ex(exes.len() as u64);
     let mut res = SchedResult { schedules: 0, by_preemptions: [0; 3], capped: false, max_points: 0 };
     let mut prefix: Vec<usize> = vec![];
-    loop {
+    with_team(db, &jobs, |run_schedule| loop {
         let vm = fresh_sched_vm(db, &exes, sj.warm);
-        let run = run_schedule(db, &vm, &jobs, &prefix);
+        let run = run_schedule(vm, &prefix);
         col.ex(jobs.len() as u64 * if sj.warm { 2 } else { 1 });
         res.schedules += 1;
         res.max_points = res.max_points.max(run.decisions.len());
@@ -528,14 +570,18 @@ fn explore_subject(root: &Root, col: &Collector, pool: &Pool, sj: &SchedSubject,
                 col.info("schedule:instantiate-sequence-differs-from-sequential-run", 1);
             }
             if got != d0s[t] {
-                // run the very same schedule again before believing it
-                let vm2 = fresh_sched_vm(db, &exes, sj.warm);
-                let again = run_schedule(db, &vm2, &jobs, &choices);
-                let got2 = match &again.outcomes[t] {
-                    Ok(d) => d.clone(),
-                    Err(p) => format!("PANIC:{p}"),
+                // run the very same schedule again before believing it (first instances of the class only)
+                let (got2, same_trace) = if col.detail_budget(&format!("schedule:{}", if sj.warm { "warm" } else { "cold" })) {
+                    let vm2 = fresh_sched_vm(db, &exes, sj.warm);
+                    let again = run_schedule(vm2, &choices);
+                    let got2 = match &again.outcomes[t] {
+                        Ok(d) => d.clone(),
+                        Err(p) => format!("PANIC:{p}"),
+                    };
+                    (got2, again.trace == run.trace)
+                } else {
+                    ("(not re-run)".to_string(), true)
                 };
-                let same_trace = again.trace == run.trace;
                 col.violation(
                     format!("schedule:{}", if sj.warm { "warm" } else { "cold" }),
                     format!(
@@ -563,7 +609,7 @@ fn explore_subject(root: &Root, col: &Collector, pool: &Pool, sj: &SchedSubject,
             Some(p) => prefix = p,
             None => break,
         }
-    }
+    });
     col.sched_runs.fetch_add(res.schedules, Ordering::Relaxed);
     col.sched_subjects.fetch_add(1, Ordering::Relaxed);
     col.sched_max_points.fetch_max(res.max_points as u64, Ordering::Relaxed);
@@ -573,17 +619,15 @@ fn explore_subject(root: &Root, col: &Collector, pool: &Pool, sj: &SchedSubject,
 fn schedule_subjects(ctx: &Ctx, menu: &[Op]) -> Vec<SchedSubject> {
     let mut v = vec![];
     let wasm_heavy = [Op::Std(Tx::Faucet), Op::Std(Tx::PublishWat), Op::CalcLoop, Op::CalcPingPong, Op::WasmMix];
-    // one representative per distinct pattern of WASM use / outcome kind (quick tier pairs)
+    // one representative per distinct pattern of WASM use / outcome kind (triples)
     let representative = [
         Op::Std(Tx::TransferF),
         Op::Std(Tx::MintNf7),
-        Op::Std(Tx::RecallRc),
         Op::Std(Tx::FailAssert),
         Op::Std(Tx::ContingentOk),
         Op::Std(Tx::Faucet),
         Op::Std(Tx::NextRound),
         Op::Std(Tx::PublishWat),
-        Op::CalcLoop,
         Op::CalcPingPong,
         Op::WasmMix,
     ];
@@ -603,17 +647,19 @@ fn schedule_subjects(ctx: &Ctx, menu: &[Op]) -> Vec<SchedSubject> {
         }
     };
     if ctx.quick() {
-        // root state: all pairs of the representatives + the self-pair of every menu transaction
-        push_pairs(&vec![], &representative, menu, false);
+        // root state: all pairs (with repetition) of the whole menu on a cold engine; warm for self/WASM-heavy pairs
+        push_pairs(&vec![], menu, &[], false);
     } else {
-        // root state: all pairs of the whole menu, cold and warm; two deeper states: all pairs, cold
+        // root and four deeper states: all pairs of the whole menu, cold and warm
         push_pairs(&vec![], menu, &[], true);
-        push_pairs(&vec![Op::Std(Tx::FreezeB)], menu, &[], false);
-        push_pairs(&vec![Op::Std(Tx::NextRound)], menu, &[], false);
-        let sub = [Op::Std(Tx::TransferF), Op::Std(Tx::FailAssert), Op::Std(Tx::ContingentOk), Op::Std(Tx::Faucet), Op::Std(Tx::NextRound), Op::CalcPingPong, Op::WasmMix];
-        for t in multisets(&sub, 3) {
+        for o in [Op::Std(Tx::TransferNf), Op::Std(Tx::FreezeB), Op::Std(Tx::Stake), Op::Std(Tx::NextRound)] {
+            push_pairs(&vec![o], menu, &[], true);
+        }
+        // root: all triples (with repetition) of nine representatives, cold
+        for t in multisets(&representative[..9], 3) {
             v.push(SchedSubject { hist: vec![], ops: t, warm: false });
         }
+        v.push(SchedSubject { hist: vec![], ops: vec![Op::CalcLoop, Op::CalcPingPong, Op::WasmMix], warm: false });
     }
     v
 }
@@ -769,8 +815,10 @@ fn bench() -> ! {
         let jobs = vec![Job { exe: &e.exe, cfg: &e.cfg }, Job { exe: &e.exe, cfg: &e.cfg }];
         t(&format!("spawn 2 threads {n}"), 100, &mut || std::thread::scope(|s| { s.spawn(|| 1); s.spawn(|| 2); }));
         t(&format!("2 threads run warm det unscheduled {n}"), 50, &mut || std::thread::scope(|s| { for _ in 0..2 { s.spawn(|| drop(with_ctl(Plan::Shared, None, || run_once(db, &det, &e.cfg, &e.exe)))); } }));
-        t(&format!("schedule pair cold {n}"), 100, &mut || drop(run_schedule(db, &new_det_vm(), &jobs, &[])));
-        t(&format!("schedule pair warm-engine {n}"), 100, &mut || drop(run_schedule(db, &det, &jobs, &[])));
+        with_team(db, &jobs, |run| {
+            t(&format!("team schedule pair cold {n}"), 100, &mut || drop(run(std::sync::Arc::new(new_det_vm()), &[])));
+            t(&format!("team schedule pair cold 2 preemptions {n}"), 100, &mut || drop(run(std::sync::Arc::new(new_det_vm()), &[0, 1, 0])));
+        });
     }
     std::process::exit(0)
 }
@@ -933,8 +981,14 @@ fn parent(mut ctx: Ctx) -> ! {
     for (k, n) in col.infos.lock().unwrap().iter() {
         ctx.info(k, *n);
     }
-    let vs = std::mem::take(&mut *col.violations.lock().unwrap());
-    for (k, w, c) in vs {
+    // the evidence writer keeps the first 12 distinct keys: hand over one instance per key first, the most
+    // telling dimensions first (the 24 config keys last)
+    let mut vs = std::mem::take(&mut *col.violations.lock().unwrap());
+    let prio = |k: &str| ["repeat", "rerun", "process", "cache", "history", "schedule", "smoke", "config"].iter().position(|p| k.starts_with(p)).unwrap_or(99);
+    vs.sort_by(|a, b| (prio(&a.0), &a.0).cmp(&(prio(&b.0), &b.0)));
+    let mut seen_keys = BTreeSet::new();
+    let (firsts, rest): (Vec<_>, Vec<_>) = vs.into_iter().partition(|v| seen_keys.insert(v.0.clone()));
+    for (k, w, c) in firsts.into_iter().chain(rest.into_iter()) {
         ctx.violation(k, w, c);
     }
     let execs = col.executions.load(Ordering::Relaxed) + cl.execs;
@@ -1058,9 +1112,10 @@ fn replay(ctx: Ctx) -> ! {
         let sj = SchedSubject { hist: hist.clone(), ops: ops.clone(), warm };
         let (st, exes, d0s) = prepare_subject(&root, &col, &real, &sj);
         let jobs: Vec<Job> = exes.iter().map(|e| Job { exe: &e.exe, cfg: &e.cfg }).collect();
-        for rep in 0..3 {
-            let vm = fresh_sched_vm(st.sim.substate_db(), &exes, warm);
-            let run = run_schedule(st.sim.substate_db(), &vm, &jobs, &choices);
+        let db = st.sim.substate_db();
+        with_team(db, &jobs, |run_schedule| for rep in 0..3 {
+            let vm = fresh_sched_vm(db, &exes, warm);
+            let run = run_schedule(vm, &choices);
             say!("  run {rep}: trace [{}]", trace_string(&run.trace));
             for t in 0..jobs.len() {
                 let got = match &run.outcomes[t] {
@@ -1073,7 +1128,7 @@ fn replay(ctx: Ctx) -> ! {
                 }
                 say!("    thread {t} {}: {} sequential {} {}", ops[t].name(), got, d0s[t], if ok { "equal" } else { "DIFFERENT" });
             }
-        }
+        });
     } else {
         let op = case.get("op").and_then(|v| v.as_str()).and_then(op_by_name).unwrap_or_else(|| mc_core::machinery_error("replay case has no op"));
         let mut st = rebuild(&root, &hist, &real).unwrap_or_else(|e| mc_core::machinery_error(&format!("cannot rebuild: {e}")));
@@ -1091,7 +1146,7 @@ fn replay(ctx: Ctx) -> ! {
         }
         for kt in [false, true] {
             for (label, cfg) in cfg_variants(&exe.cfg, kt) {
-                let d = outcome_of(&run_once(db, &real, &cfg, &exe.exe));
+                let d = outcome_of(&run_once(db, &new_real_vm(), &cfg, &exe.exe));
                 if d != d0 {
                     bad += 1;
                     say!("  config {label}: {d} DIFFERENT");
